@@ -900,6 +900,10 @@ func (c *Conn) advanceFrame() (int, error) {
 	case CloseMessage:
 		closeCode := CloseNoStatusReceived
 		closeText := ""
+		if len(payload) == 1 {
+			// RFC 6455 section 5.5.1: a close body starts with a 2-byte status code.
+			return noFrame, c.handleProtocolError("invalid close payload length")
+		}
 		if len(payload) >= 2 {
 			closeCode = int(binary.BigEndian.Uint16(payload))
 			if !isValidReceivedCloseCode(closeCode) {
